@@ -2,13 +2,14 @@
 Helper lemmas for C14 (served FINDNODE answers): the model's own `sort_unstable` + `dedup`
 (`sortNat`, `dedupAdj`), the record list `nodesToSend` collects, the packet count of the split, and
 a value predicate (`BVals` / `TVals`) that is preserved by the lazily applied pending nodes of
-`nodes_by_distances`.
+`nodes_by_distances`.  Everything lives in the sub-namespaces `Discv5.KB.Serve` / `Discv5.Svc.Serve`
+so that it cannot collide with the helper files of the other service properties.
 -/
 import Discv5Model.Model.Service
 import Discv5Model.Proofs.KBucketLemmas
 import Discv5Model.Proofs.ClosestLemmas
 
-namespace Discv5.KB
+namespace Discv5.KB.Serve
 
 variable {V : Type} [DecidableEq V]
 
@@ -140,10 +141,10 @@ theorem nodesByDistances_nil (c : Cfg V) (now : Nat) (t : Table V) (m : Nat) :
     (t.nodesByDistances c now [] m).2 = [] := by
   simp [Table.nodesByDistances, validDistances, collectUpTo]
 
-end Discv5.KB
+end Discv5.KB.Serve
 
-namespace Discv5.Svc
-open Discv5.KB Discv5.Svc.Svc
+namespace Discv5.Svc.Serve
+open Discv5.KB Discv5.KB.Serve Discv5.Svc.Svc
 
 /-! ### `sort_unstable` + `dedup` -/
 
@@ -306,4 +307,4 @@ theorem nodesPackets_length_le (recs : List Rec) : (nodesPackets recs).1.length 
   · rw [if_pos h]; simp
   · rw [if_neg h]; exact splitPackets_length_le recs
 
-end Discv5.Svc
+end Discv5.Svc.Serve
